@@ -130,7 +130,7 @@ def strat_items(tier):
 
 
 PARTS = [
-    Part("quiescence", run, strategy, {"quick": 2000, "thorough": 60000}, rule=RULE),
-    Part("fork-join", run, strat_directed, {"quick": 1000, "thorough": 30000}, rule="directed fork-join (join all / N, late and missing arrivals) under arbitrary schedules"),
-    Part("items-siblings", run, strat_items, {"quick": 1200, "thorough": 30000}, rule="directed: concurrency-limited with-items tasks beside plain tasks that report pending / canceled / failed, with control requests"),
+    Part("quiescence", run, strategy, {"quick": 2000, "thorough": 20000}, rule=RULE),
+    Part("fork-join", run, strat_directed, {"quick": 1000, "thorough": 10000}, rule="directed fork-join (join all / N, late and missing arrivals) under arbitrary schedules"),
+    Part("items-siblings", run, strat_items, {"quick": 1200, "thorough": 12000}, rule="directed: concurrency-limited with-items tasks beside plain tasks that report pending / canceled / failed, with control requests"),
 ]
